@@ -239,6 +239,10 @@ struct LoadedLinkerScript<'data> {
 pub(crate) struct AuxiliaryFiles<'data> {
     pub(crate) version_script_data: Option<ScriptData<'data>>,
     pub(crate) export_list_data: Option<ScriptData<'data>>,
+
+    /// The files that we read. These need to be treated like other inputs when it comes to
+    /// detecting changes and listing dependencies.
+    pub(crate) input_files: Vec<&'data InputFile>,
 }
 
 impl<'data> AuxiliaryFiles<'data> {
@@ -256,15 +260,22 @@ impl<'data> AuxiliaryFiles<'data> {
             }
         };
 
+        let mut input_files = Vec::new();
+
         Ok(Self {
             version_script_data: args
                 .version_script_path()
-                .map(|path| read_script_data(&resolve_script_path(path), inputs_arena))
+                .map(|path| {
+                    read_script_data(&resolve_script_path(path), inputs_arena, &mut input_files)
+                })
                 .transpose()?,
             export_list_data: args
                 .export_list_path()
-                .map(|path| read_script_data(&resolve_script_path(path), inputs_arena))
+                .map(|path| {
+                    read_script_data(&resolve_script_path(path), inputs_arena, &mut input_files)
+                })
                 .transpose()?,
+            input_files,
         })
     }
 }
@@ -729,6 +740,7 @@ impl<'data, P: Platform> TemporaryState<'data, P> {
 fn read_script_data<'data>(
     path: &Path,
     inputs_arena: &'data Arena<InputFile>,
+    input_files: &mut Vec<&'data InputFile>,
 ) -> Result<ScriptData<'data>> {
     let data = FileData::new(path, false).context("Failed to read script")?;
 
@@ -738,6 +750,9 @@ fn read_script_data<'data>(
         modifiers: Default::default(),
         data: Some(data),
     });
+
+    let file = &*file;
+    input_files.push(file);
 
     Ok(ScriptData { raw: file.data() })
 }
